@@ -214,6 +214,13 @@ impl VM {
                 }),
                 pos,
             )?;
+        } else {
+            // Only primitive values can be cast. Pushing nothing here would
+            // leave the stack short one value.
+            return Err(Error::new(
+                format!("No cast from {} to {}", val.type_name(), t).into(),
+                pos,
+            ));
         }
         Ok(())
     }
@@ -913,7 +920,11 @@ impl VM {
         if let &P(Str(ref msg)) = msg_val.as_ref() {
             Err(Error::new(msg.clone(), err_pos))
         } else {
-            unreachable!();
+            // fail accepts any expression so the message can be anything.
+            Err(Error::new(
+                format!("Failure message must be a string but got {}", msg_val.type_name()).into(),
+                err_pos,
+            ))
         }
     }
 
